@@ -20,3 +20,15 @@ Proof. exact il_cost_rule. Qed.
 Theorem C19_prefix_free : forall o x, il_is_empty (spilled o) = true -> fst (stride_push (strided o) x) = true ->
   spilled (io_push o x) = spilled o /\ strided (io_push o x) = snd (stride_push (strided o) x).
 Proof. exact io_push_strided. Qed.
+
+(** Consequently a FlatStack with the optimised index container over a dense-index region
+    (ConsecutiveIndexPairs over any region with dense pair indices) spends ZERO heap bytes on its own
+    indices, for ANY number of copied items (below 2^64): the region hands out 0, 1, 2, ... (C12) and
+    IndexOptimized absorbs that sequence in its stride without ever spilling. *)
+From FC Require Import Region.Region Region.Consec Stack.FlatStack Stack.FlatStackDense.
+Theorem C19_flatstack_dense_free : forall (R : Region) (SP : RSpec R) (H : RegionOK R) (PI : PairIdx R) (D : Dense R)
+  (O : IC nat) (HO : ICOk O) (chk : bool) (vs : list (val (consec R O chk))) x,
+  N.of_nat (length vs) <= W ->
+  fs_extend (fs_default (consec R O chk) (ic_nat index_optimized)) vs = Ok x ->
+  ic_used (ic_nat index_optimized) (snd x) = [0; 0].
+Proof. exact (@fs_dense_index_free). Qed.
